@@ -134,6 +134,56 @@ fn unix_wire(tag: &str) -> (Wire, String, UnixDatagram) {
     (Wire::Unix(r, d, p.clone()), p, s)
 }
 
+/// Self-probe of the instrumentation: one known-good emit (+ flush) per sink family must report the hook points the drivers
+/// rely on (write attempts; for buffered sinks also the critical section). A family whose points are not reported - a change to
+/// the code moved or dropped them - cannot be judged from outside: its runs are skipped and named in the summary (reported as a
+/// divergence of the tooling), never turned into a verdict.
+fn probe_hooks() -> Vec<&'static str> {
+    let mut missing = vec![];
+    let mut check = |family: &'static str, buffered: bool, f: &mut dyn FnMut()| {
+        take_hooks();
+        let _ = catch_unwind(AssertUnwindSafe(|| f()));
+        let h = take_hooks();
+        let att = h.iter().filter(|x| matches!(x, Hk::Attempt(..))).count();
+        let lk = h.iter().filter(|x| matches!(x, Hk::Locked(_))).count();
+        let ul = h.iter().filter(|x| matches!(x, Hk::Unlocking(_))).count();
+        if att < 1 || (buffered && (lk < 2 || ul < 2)) {
+            missing.push(family);
+        }
+    };
+    check("udp", false, &mut || {
+        let (_w, addr, s) = udp_wire();
+        let _ = UdpMetricSink::from(&addr[..], s).unwrap().emit("probe:1|c");
+    });
+    check("budp", true, &mut || {
+        let (_w, addr, s) = udp_wire();
+        let k = BufferedUdpMetricSink::with_capacity(&addr[..], s, 64).unwrap();
+        let _ = k.emit("probe:1|c");
+        let _ = k.flush();
+    });
+    check("unix", false, &mut || {
+        let (_w, p, s) = unix_wire("probe");
+        let _ = UnixMetricSink::from(&p, s).emit("probe:1|c");
+    });
+    check("bunix", true, &mut || {
+        let (_w, p, s) = unix_wire("probeb");
+        let k = BufferedUnixMetricSink::with_capacity(&p, s, 64);
+        let _ = k.emit("probe:1|c");
+        let _ = k.flush();
+    });
+    check("bspy", true, &mut || {
+        let (_rx, k) = BufferedSpyMetricSink::with_capacity(None, Some(64));
+        let _ = k.emit("probe:1|c");
+        let _ = k.flush();
+    });
+    missing
+}
+/// the sink family of a driver kind ("conc-budp", "budp-nb", "q-budp", "bulk-udp", "bunix-default" ...)
+fn family(kind: &str) -> &str {
+    let k = kind.trim_start_matches("conc-").trim_start_matches("bulk-").trim_start_matches("q-").trim_start_matches("stack-");
+    k.trim_end_matches("-nb").trim_end_matches("-default")
+}
+
 fn metric(seq: u64, len: usize) -> String {
     let mut s = format!("s{}.é:{}|g|#k:{}", seq, seq % 89, seq % 5);
     if s.len() > len {
@@ -183,8 +233,12 @@ pub fn drive(a: &Args) {
     let mut calls = 0u64;
     let mut sample = json!(null);
     let kinds = ["udp", "unix", "budp", "bunix", "bunix-nb", "unix-nb", "budp-default", "q-budp", "bunix-default", "udp-nb", "budp-nb", "spy"];
+    let uninstrumented = probe_hooks();
     for run in 0..runs {
         let kind = kinds[(run as usize) % kinds.len()];
+        if uninstrumented.contains(&family(kind)) {
+            continue;
+        }
         let caps = [0usize, 1, 5, 16, 40, 64, 100, 512, 1432, 70_000];
         let cap = caps[rng.random_range(0..caps.len())];
         // scenario classes that must not depend on the seed: in the first pass over the kinds a non-blocking buffered sink
@@ -397,7 +451,7 @@ pub fn drive(a: &Args) {
     cadence::verif::install(None);
     let _ = std::fs::remove_dir_all(sockdir());
     t.finish();
-    summary(json!({"engine":"sink-drive","seed":seed,"runs":runs,"calls":calls,"events":t.count(),"sample":sample}));
+    summary(json!({"engine":"sink-drive","seed":seed,"runs":runs,"calls":calls,"events":t.count(),"sample":sample,"uninstrumented":uninstrumented}));
 }
 
 /// shares one sink between the harness and a client / queuing wrapper
@@ -463,8 +517,12 @@ pub fn conc(a: &Args) {
     let mut calls = 0u64;
     let mut sample = json!(null);
     let kinds = ["bspy", "budp", "bunix", "udp", "bspy", "unix", "budp", "bulk-udp", "bulk-unix"];
+    let uninstrumented = probe_hooks();
     for run in 0..runs {
         let kind = kinds[(run as usize) % kinds.len()];
+        if uninstrumented.contains(&family(kind)) {
+            continue;
+        }
         if kind.starts_with("bulk-") {
             // C14 under heavy contention: 8 threads hammer ONE unbuffered sink; only the tallies are recorded
             // (each thread counts its own Ok / Err results and bytes), then stats() is read at quiescence
@@ -752,7 +810,7 @@ pub fn conc(a: &Args) {
     cadence::verif::install(None);
     let _ = std::fs::remove_dir_all(sockdir());
     t.finish();
-    summary(json!({"engine":"sink-conc","seed":seed,"runs":runs,"calls":calls,"events":t.count(),"sample":sample}));
+    summary(json!({"engine":"sink-conc","seed":seed,"runs":runs,"calls":calls,"events":t.count(),"sample":sample,"uninstrumented":uninstrumented}));
 }
 
 // ------------------------------------------------------------------ the whole stack (Stack.tla)
@@ -796,10 +854,14 @@ pub fn stack(a: &Args) {
     let mut rng = StdRng::seed_from_u64(seed ^ 0x57ac_0008);
     let mut calls = 0u64;
     let mut sample = json!(null);
+    let uninstrumented = probe_hooks();
     for run in 0..runs {
         let cap = [8usize, 24, 64, 200, 512][rng.random_range(0..5)];
         let qcap: Option<usize> = [None, Some(1), Some(2), Some(5), Some(64)][rng.random_range(0..5)];
         let udp = run % 2 == 1;
+        if uninstrumented.contains(&(if udp { "budp" } else { "bspy" })) {
+            continue;
+        }
         let n = rng.random_range(5..=80u64);
         let (wire, q): (Wire, QueuingMetricSink) = if udp {
             let (w, addr, s) = udp_wire();
@@ -950,5 +1012,5 @@ pub fn stack(a: &Args) {
     cadence::verif::install(None);
     tq.finish();
     tw.finish();
-    summary(json!({"engine":"stack-drive","seed":seed,"runs":runs,"calls":calls,"events":tq.count() + tw.count(),"sample":sample}));
+    summary(json!({"engine":"stack-drive","seed":seed,"runs":runs,"calls":calls,"events":tq.count() + tw.count(),"sample":sample,"uninstrumented":uninstrumented}));
 }
